@@ -21,6 +21,7 @@ mod common;
 mod dbg;
 mod c12;
 mod c13;
+mod c14;
 mod c15;
 mod c16;
 mod selftest;
@@ -89,6 +90,7 @@ fn main() {
         "C10" => c10::run(&mut ctx),
         "C12" => c12::run(&mut ctx),
         "C13" => c13::run(&mut ctx),
+        "C14" => c14::run(&mut ctx),
         "C15" => c15::run(&mut ctx),
         "C16" => c16::run(&mut ctx),
         _ => {
